@@ -26,15 +26,18 @@ CLAIMED = {
         'on real operator expressions (skeleton, structures, dense matrix)',
         'reduce_sound: for every expression tree, registry order and fuel, if reduce returns e then every input the '
         'original accepts gives the same output through e; reduce_structs: e is again well-formed and has the same input '
-        'and output structures (every rule family, the scalar/identity rules, the scan and the nested block reductions; '
-        'hypotheses wfo and prims_okb are evaluated on every encoded real expression) - model level, all inputs. The model is tied to the code by '
+        'and output structures (every rule family, the scalar/identity rules, the scan and the nested block reductions); '
+        'reduce_total: reduce returns an operator - never an exception - within the fuel the harness uses, by the measure '
+        '4|ops|^3 + 2 inv(ops) + (|ops| - index) per scan and a nesting weight - model level, all inputs. The model is tied to the code by '
         'regenerated tables (compiled and compared on every run) and by running reduce() of ~2400 (quick) / ~15000 '
         '(thorough) real expressions against the vm_compute-evaluated model, with the dense matrix of reduce(e) also '
         'compared with that of e on the implementation.',
-        'Partial: termination without raising (no fuel exhaustion, no exception) is not proved in Coq (checked by the '
-        'correspondence on every case); the theorems are stated for any fuel that yields a result. Trusts: leaf_facts for '
-        'opaque operators (linearity, lazy inverse inverts; the polarimetry facts are discharged by C15 for the executable semantics), '
-        'the table translator, the harness, matrices of leaf operators measured on the real code, Coq kernel.',
+        'All three clauses are proved at model level: reduce_total / reduce_no_exception (termination within an explicit fuel, '
+        'no exception: Props/C01Total.v), reduce_structs (Props/C01Structs.v), reduce_sound (Props/C01.v). Hypotheses: the '
+        'decidable predicates wfo, prims_okb, params_okb and weight <= fuel (reduce_readyb), evaluated on every encoded real '
+        'expression by the harness; leaf_facts for opaque operators (linearity, lazy inverse inverts; the polarimetry facts '
+        'are discharged by C15 for the executable semantics). Trusts the table translator, the harness, matrices of leaf '
+        'operators measured on the real code, harness-assigned object identities, Coq kernel.',
         'DESIGN.md section 4, C01',
     ),
     'C07': (
